@@ -211,7 +211,7 @@ Definition receive (w : wallet) (slate amount ttl : N) (dest : option N) (crypto
   | Ok _ =>
     let parent := match dest with Some d => d | None => w_active w end in
     if existsb (fun t => optN_eqb (t_slate t) (Some slate) && (t_parent t =? parent)
-                         && ttype_eqb (t_type t) TReceived) (w_log w)
+                         && (ttype_eqb (t_type t) TReceived || ttype_eqb (t_type t) TReverted)) (w_log w)
     then (w, Err EAlreadyReceived)
     else
       let height := lookup (w_confh w) (w_active w) in
@@ -255,10 +255,13 @@ Fixpoint add_change (outs : list orec) (chg : list (kid * option N * N)) (parent
 Definition sum_vals (l : list (kid * option N * N)) : N := sumN (map (fun x => snd x) l).
 
 (** owner::tx_lock_outputs *)
-Definition lock (w : wallet) (slate ttl tip : N) : wallet * result unit :=
+Definition lock_tx (w : wallet) (slate ttl tip : N) (has_tx : bool) : wallet * result unit :=
   match get_ctx w slate with
   | None => (w, Err EOther)
   | Some c =>
+    (* a compact slate carries no transaction: it is rebuilt from the context, which needs
+       the context's fee (absent in an invoice issuer's context) *)
+    if negb has_tx && match c_fee c with None => true | Some _ => false end then (w, Err EFee) else
     (* a slate is reserved at most once per account (the C03 [fix:]) *)
     if existsb (fun t => optN_eqb (t_slate t) (Some slate) && (t_parent t =? c_parent c)
                          && ttype_eqb (t_type t) TSent) (w_log w)
@@ -275,6 +278,8 @@ Definition lock (w : wallet) (slate ttl tip : N) : wallet * result unit :=
       (with_files (with_log (with_outs w1 outs2) (save_tx (w_log w1) t)) (slate :: w_files w1), Ok tt)
     end
   end.
+
+Definition lock (w : wallet) (slate ttl tip : N) : wallet * result unit := lock_tx w slate ttl tip true.
 
 (* ------------------------------------------------------------------ cancel *)
 Definition retrieve_txs (w : wallet) (id : option N) (slate : option N) (parent : N) : list trec :=
@@ -490,9 +495,68 @@ Definition init_send (w : wallet) (slate : N) (src : option N) (p0 : params) (la
       (save_ctx w1 c, Ok (b_amount b, b_fee b))
     end.
 
+(* ------------------------------------------------------------------ invoices *)
+(** owner::issue_invoice_tx: the payee creates its output, a received entry and a context *)
+Definition issue_invoice (w : wallet) (slate amount tip : N) (dest : option N) : wallet * result unit :=
+  let parent := match dest with Some d => d | None => w_active w end in
+  let '(w1, key) := next_child w in
+  let '(w2, id) := next_log_id w1 parent in
+  let o := mkO parent key None amount Unconfirmed tip 0 false (Some id) in
+  let t := mkT parent id (Some slate) TReceived false amount 0 None None 0 1 false false in
+  let w3 := with_log (with_outs w2 (save_out (w_outs w2) o)) (save_tx (w_log w2) t) in
+  (save_ctx w3 (mkC slate parent [] [(key, None, amount)] amount None None), Ok tt).
+
+(** owner::process_invoice_tx after its internal refresh: the payer selects inputs for the
+    invoiced amount; when paying its own invoice the two contexts are merged *)
+Definition process_invoice (w0 : wallet) (slate ttl : N) (src : option N) (p0 : params)
+           (tip : N) (pres : presence) (km : list N) : wallet * result unit :=
+  match check_ttl w0 ttl with
+  | Err e => (w0, Err e)
+  | Panic q => (w0, Panic q)
+  | Ok _ =>
+    let parent := match src with Some a => a | None => w_active w0 end in
+    (* the first entry (in creation order) for this slate in the account that is a sent or a
+       cancelled sent transaction decides the refusal *)
+    match find (fun t => optN_eqb (t_slate t) (Some slate) && (t_parent t =? parent)
+                         && (ttype_eqb (t_type t) TSent || ttype_eqb (t_type t) TSentCancelled))
+               (w_log w0) with
+    | Some t => (w0, Err (if ttype_eqb (t_type t) TSent then EAlreadyReceived else EWasCancelled))
+    | None =>
+    (* the sender always refreshes its outputs first (add_inputs_to_slate) *)
+    let w := refresh w0 parent false tip pres km in
+      let p := mkParams (p_amount p0) false (p_h p0) (p_minconf p0) (p_max_outputs p0)
+                        (p_change_outputs p0) (p_all p0) parent in
+      match build_send (sel_view w) p with
+      | Err e => (w, Err e)
+      | Panic q => (w, Panic q)
+      | Ok b =>
+        let '(w1, chg) := alloc_change w (b_changes b) in
+        let own := mkC slate parent (ctx_inputs w (b_inputs b)) chg (b_amount b) (Some (b_fee b)) None in
+        let merged :=
+          match get_ctx w slate with
+          | Some c => mkC slate parent (c_ins own ++ c_ins c) (c_outs own ++ c_outs c) (c_amount c)
+                          (c_fee c) None
+          | None => own
+          end in
+        (save_ctx w1 merged, Ok tt)
+      end
+    end
+  end.
+
 (* ------------------------------------------------------------------ finalize *)
 (** owner/foreign finalize_tx for a Standard2 reply, as bookkeeping. [crypto_ok]: whether
     the signature/fee/validation checks of complete_tx and the payment-proof check pass. *)
+Definition finalize_invoice (w : wallet) (slate : N) (crypto_ok : bool) : wallet * result unit :=
+  if negb crypto_ok then (w, Err ECrypto)
+  else
+    match find (fun t => optN_eqb (t_slate t) (Some slate) && ttype_eqb (t_type t) TReceived)
+               (w_log w) with
+    | None => (w, Err ENotFound)
+    | Some t =>
+      (del_ctx (with_files (with_log w (save_tx (w_log w) (set_excess t))) (slate :: w_files w)) slate,
+       Ok tt)
+    end.
+
 Definition finalize (w : wallet) (slate ttl tip : N) (state_ok crypto_ok : bool)
   : wallet * result unit :=
   match get_ctx w slate with
@@ -604,14 +668,17 @@ Definition expire (w : wallet) (tip : N) : wallet :=
 (* ------------------------------------------------------------------ operations *)
 Inductive op :=
 | OpReceive (slate amount ttl : N) (dest : option N) (crypto_ok : bool)
-| OpLock (slate ttl tip : N)
+| OpLock (slate ttl tip : N) (has_tx : bool)
 | OpCancel (id : option N) (slate : option N)
 | OpCoinbase (fees height : N) (key : option kid)
 | OpRefresh (parent : N) (update_all : bool) (tip : N) (p : presence) (kernel_missing : list N)
 | OpInitSend (slate : N) (src : option N) (p : params) (late : bool)
 | OpFinalize (slate ttl tip : N) (state_ok crypto_ok : bool)
 | OpSetActive (a : N)
-| OpExpire (tip : N).
+| OpExpire (tip : N)
+| OpIssueInvoice (slate amount tip : N) (dest : option N)
+| OpProcessInvoice (slate ttl : N) (src : option N) (p : params) (tip : N) (pres : presence) (km : list N)
+| OpFinalizeInvoice (slate ttl : N) (crypto_ok : bool).
 
 (** result code of a step: 0 Ok, 1 :: class for Err, 2 Panic *)
 Definition rcode {A} (r : result A) : list Z :=
@@ -620,7 +687,7 @@ Definition rcode {A} (r : result A) : list Z :=
 Definition step (w : wallet) (o : op) : wallet * list Z :=
   match o with
   | OpReceive s a t d c => let '(w', r) := receive w s a t d c in (w', rcode r)
-  | OpLock s t tip => let '(w', r) := lock w s t tip in (w', rcode r)
+  | OpLock s t tip h => let '(w', r) := lock_tx w s t tip h in (w', rcode r)
   | OpCancel i s => let '(w', r) := cancel w i s in (w', rcode r)
   | OpCoinbase f h k => let '(w', r) := coinbase w f h k in (w', rcode r)
   | OpRefresh p a t pr km => (refresh w p a t pr km, [0%Z])
@@ -628,6 +695,19 @@ Definition step (w : wallet) (o : op) : wallet * list Z :=
   | OpFinalize s t tip so c => let '(w', r) := finalize w s t tip so c in (w', rcode r)
   | OpSetActive a => (with_active w a, [0%Z])
   | OpExpire tip => (expire w tip, [0%Z])
+  | OpIssueInvoice s a tip d => let '(w', r) := issue_invoice w s a tip d in (w', rcode r)
+  | OpProcessInvoice s t src p tip pr km =>
+    let '(w', r) := process_invoice w s t src p tip pr km in (w', rcode r)
+  | OpFinalizeInvoice s t c =>
+    match get_ctx w s with
+    | None => (w, rcode (@Err unit EOther))
+    | Some _ =>
+      match check_ttl w t with
+      | Err e => (w, rcode (@Err unit e))
+      | Panic q => (w, rcode (@Panic unit q))
+      | Ok _ => let '(w', r) := finalize_invoice w s c in (w', rcode r)
+      end
+    end
   end.
 
 Definition run (w : wallet) (ops : list op) : wallet := fold_left (fun w o => fst (step w o)) ops w.
